@@ -217,13 +217,26 @@ func (c *regexpSimplifyChecker) walk(e syntax.Expr) {
 	case syntax.OpEscapeChar:
 		switch e.Value {
 		case `\&`, `\#`, `\!`, `\@`, `\%`, `\<`, `\>`, `\:`, `\;`, `\/`, `\,`, `\=`, `\.`:
+			if c.escapeIsLoadBearing(e.Value) {
+				out.WriteString(e.Value)
+				break
+			}
 			c.score++
 			out.WriteString(e.Value[len(`\`):])
 		default:
 			out.WriteString(e.Value)
 		}
 
-	case syntax.OpQuestion, syntax.OpNonGreedy:
+	case syntax.OpNonGreedy:
+		if e.Args[0].Op == syntax.OpRepeat {
+			// `x{1}?` is not `x?`: dropping or re-spelling the repeat would make
+			// the laziness marker a quantifier of its own.
+			out.WriteString(e.Value)
+			break
+		}
+		c.walk(e.Args[0])
+		out.WriteString("?")
+	case syntax.OpQuestion:
 		c.walk(e.Args[0])
 		out.WriteString("?")
 	case syntax.OpStar:
@@ -236,6 +249,30 @@ func (c *regexpSimplifyChecker) walk(e syntax.Expr) {
 	default:
 		out.WriteString(e.Value)
 	}
+}
+
+// escapeIsLoadBearing reports whether removing the backslash of the escape
+// sequence v would change how the text written so far is tokenized:
+// `x{1\,2}` is a literal, `x{1,2}` is a repetition;
+// `[[\:alpha\:]]` is a set of chars, `[[:alpha:]]` is a named class.
+func (c *regexpSimplifyChecker) escapeIsLoadBearing(v string) bool {
+	written := c.out.String()
+	switch v {
+	case `\,`:
+		i := strings.LastIndexByte(written, '{')
+		if i < 0 {
+			return false
+		}
+		for _, ch := range written[i+1:] {
+			if ch < '0' || ch > '9' {
+				return false
+			}
+		}
+		return true
+	case `\:`, `\=`, `\.`:
+		return strings.HasSuffix(written, "[")
+	}
+	return false
 }
 
 // walkCharClassArgs walks char class elements.
